@@ -1811,6 +1811,18 @@ func (db *DB) verifyWithExecutor(ctx context.Context, exec *syncExecutor) (info 
 			"salt1", salt1,
 			"salt2", salt2)
 
+		// If the previous WAL generation kept growing past our last synced
+		// position then frames were written, and checkpointed into the database,
+		// that we never copied. Fall back to a snapshot.
+		if continued, err := db.prevGenerationContinues(info.offset, dec.Header().WALSalt1, dec.Header().WALSalt2); err != nil {
+			return info, fmt.Errorf("check previous wal generation: %w", err)
+		} else if continued {
+			info.offset = WALHeaderSize
+			info.salt1, info.salt2 = salt1, salt2
+			info.reason = "previous wal generation has unsynced frames, snapshotting"
+			return info, nil
+		}
+
 		info.offset = WALHeaderSize
 		info.salt1, info.salt2 = salt1, salt2
 
@@ -1828,6 +1840,19 @@ func (db *DB) verifyWithExecutor(ctx context.Context, exec *syncExecutor) (info 
 	info.snapshotting = false
 
 	return info, nil
+}
+
+// prevGenerationContinues reports whether the frame at offset still carries the
+// salts of the previous WAL generation, i.e. that generation was extended after
+// our last sync and the frames that followed have not been overwritten yet.
+func (db *DB) prevGenerationContinues(offset int64, salt1, salt2 uint32) (bool, error) {
+	hdr, err := readWALFileAt(db.WALPath(), offset, WALFrameHeaderSize)
+	if errors.Is(err, io.EOF) || errors.Is(err, io.ErrUnexpectedEOF) {
+		return false, nil
+	} else if err != nil {
+		return false, err
+	}
+	return binary.BigEndian.Uint32(hdr[8:]) == salt1 && binary.BigEndian.Uint32(hdr[12:]) == salt2, nil
 }
 
 // lastPageMatch checks if the last page read in the WAL exists in the last LTX file.
